@@ -108,6 +108,14 @@ func main() {
 		c := ir.NewCanon(p.Fset, fi.Pkg.TypesInfo, ir.Options{KeepNames: true, ParamNames: true})
 		tree := c.Func(fi.Decl)
 		fmt.Println(ir.Render(tree), c.Notes)
+	case "paths":
+		fi := rc.P.Func(os.Args[2])
+		c := ir.NewCanon(rc.P.Fset, fi.Pkg.TypesInfo, ir.Options{ParamNames: true, KeepNames: true, PureCall: func(n string) bool { return rules.SPure(n) }})
+		ps, ok := ir.EnumPaths(c.Func(fi.Decl), 500)
+		fmt.Println("ok", ok, len(ps))
+		for _, p := range ps {
+			fmt.Println(p.String())
+		}
 	case "s":
 		rules.S1(rc)
 		rules.S2(rc)
@@ -327,6 +335,22 @@ func main() {
 		b, _ := json.MarshalIndent(ref, "", " ")
 		os.WriteFile("/verif/checker/rules/guards_ref.json", append(b, '\n'), 0o644)
 		fmt.Println("sites with facts:", len(ref), "of", len(facts), "skipped functions:", skipped, time.Since(t0))
+	case "fngen":
+		var names []string
+		seen := map[string]bool{}
+		for _, fi := range rc.P.SortedFuncs() {
+			if fi.Obj == nil || strings.HasSuffix(fi.File, "_test.go") {
+				continue
+			}
+			if n := fi.Obj.Name(); !seen[n] {
+				seen[n] = true
+				names = append(names, n)
+			}
+		}
+		sort.Strings(names)
+		b, _ := json.MarshalIndent(names, "", " ")
+		os.WriteFile("/verif/checker/rules/funcs_ref.json", append(b, '\n'), 0o644)
+		fmt.Println("function names:", len(names))
 	case "gc":
 		rules.GC(rc, nil, 0)
 		n := 0
